@@ -18,7 +18,52 @@ THEOREMS = ["GoaktVerif.C23." + t for t in [
     "unmarshal_eq_finish", "unmarshalWithMeta_eq_finish", "serverDecode_eq_finish", "clientDecode_eq",
     "gen_facts", "default_limit_ok", "pool_sizing",
     "C23_holds",
+    # every bound of the decoders, regenerated from the source, = the condition the model branches on
+    "gen_umShort", "gen_umTotal", "gen_umName", "gen_uwmShort", "gen_uwmTotal", "gen_uwmBound", "gen_uwmHasMeta",
+    "gen_rdMin", "gen_rdMax", "gen_srvMin", "gen_srvMax", "gen_srvTriesMeta", "gen_cliShort", "gen_cliDetect",
+    "gen_mdShort", "gen_mdKey", "gen_mdVal", "gen_mdTail", "gen_mdHasDeadline",
 ]]
+def _cond(file, func, match, lean, types=None, binds=None):
+    t = {"kind": "if_cond", "file": "internal/net/" + file, "func": func, "match": match, "lean": lean}
+    if types:
+        t["types"] = types
+    if binds:
+        t["binds"] = binds
+    return t
+
+
+_LEN_DATA = [["len(data)", "dataLen", "int"]]
+_LEN_FRAME = [["len(frame)", "frameLen", "int"]]
+# every length / bound condition of the decoders, regenerated from the source on every run; Props/C23
+# proves each equal to the condition the model uses (gen_*), so editing a bound breaks a proof obligation
+_COND_TARGETS = [
+    _cond("proto_serializer.go", "ProtoSerializer.UnmarshalBinary", "len(data) < 8", "umShort", binds=_LEN_DATA),
+    _cond("proto_serializer.go", "ProtoSerializer.UnmarshalBinary", "len(data) < messageLength", "umTotal",
+          types={"messageLength": "int"}, binds=_LEN_DATA),
+    _cond("proto_serializer.go", "ProtoSerializer.UnmarshalBinary", "8+nameLen > messageLength", "umName",
+          types={"messageLength": "int", "nameLen": "int"}),
+    _cond("proto_serializer.go", "ProtoSerializer.UnmarshalBinaryWithMetadata", "len(data) < 12", "uwmShort", binds=_LEN_DATA),
+    _cond("proto_serializer.go", "ProtoSerializer.UnmarshalBinaryWithMetadata", "len(data) < messageLength", "uwmTotal",
+          types={"messageLength": "int"}, binds=_LEN_DATA),
+    _cond("proto_serializer.go", "ProtoSerializer.UnmarshalBinaryWithMetadata", "nameLen+metaLen", "uwmBound",
+          types={"messageLength": "int", "nameLen": "int", "metaLen": "int"}),
+    _cond("proto_serializer.go", "ProtoSerializer.UnmarshalBinaryWithMetadata", "metaLen > 0", "uwmHasMeta", types={"metaLen": "int"}),
+    _cond("client.go", "readProtoFrame", "totalLen < 8", "rdMin", types={"totalLen": "uint32"}),
+    _cond("client.go", "readProtoFrame", "totalLen > maxFrameSize", "rdMax", types={"totalLen": "uint32", "maxFrameSize": "uint32"}),
+    _cond("proto_server.go", "ProtoServer.handleConn", "totalLen < 8", "srvMin", types={"totalLen": "uint32"}),
+    _cond("proto_server.go", "ProtoServer.handleConn", "totalLen > ps.maxFrameSize", "srvMax", types={"totalLen": "uint32"},
+          binds=[["ps.maxFrameSize", "maxFrameSize", "uint32"]]),
+    _cond("proto_server.go", "ProtoServer.handleConn", "len(frame) >= 12", "srvTriesMeta", binds=_LEN_FRAME),
+    _cond("client.go", "Client.unmarshalProtoResponse", "len(frame) < 12", "cliShort", binds=_LEN_FRAME),
+    _cond("client.go", "Client.unmarshalProtoResponse", "potentialMetaLen) <= totalLen", "cliDetect",
+          types={"totalLen": "int", "nameLen": "int", "potentialMetaLen": "int"}),
+    _cond("metadata.go", "Metadata.UnmarshalBinary", "len(data) < 10", "mdShort", binds=_LEN_DATA),
+    _cond("metadata.go", "Metadata.UnmarshalBinary", "pos+keyLen > len(data)", "mdKey", types={"pos": "int", "keyLen": "int"}, binds=_LEN_DATA),
+    _cond("metadata.go", "Metadata.UnmarshalBinary", "pos+valLen > len(data)", "mdVal", types={"pos": "int", "valLen": "int"}, binds=_LEN_DATA),
+    _cond("metadata.go", "Metadata.UnmarshalBinary", "pos+8 > len(data)", "mdTail", types={"pos": "int"}, binds=_LEN_DATA),
+    _cond("metadata.go", "Metadata.UnmarshalBinary", "remaining != 0", "mdHasDeadline", types={"remaining": "int64"}),
+]
+
 GO2LEAN = {"targets": [
     {"kind": "const", "file": "internal/net/client.go", "name": "defaultMaxFrameSize", "lean": "defaultMaxFrameSize"},
     {"kind": "const", "file": "internal/net/frame_pool.go", "name": "minBucketShift", "lean": "minBucketShift"},
@@ -34,7 +79,7 @@ GO2LEAN = {"targets": [
               "for k, v := range m.headers {\n\tbinary.BigEndian.PutUint16(buf[pos:], uint16(len(k)))\n\tpos += 2\n\tpos += copy(buf[pos:], k)\n\n\tbinary.BigEndian.PutUint16(buf[pos:], uint16(len(v)))\n\tpos += 2\n\tpos += copy(buf[pos:], v)\n}",
               "binary.BigEndian.PutUint64(buf[pos:], uint64(remaining))"],
      "binds": [["m.deadlineNano", "deadlineNano", "int64"], ["time.Now().UnixNano()", "now", "int64"], ["buf", "remaining", "int64"]]},
-]}
+] + _COND_TARGETS}
 INPKG = ["internal/net/zz_verif_c23.go"]
 ORACLE_NEEDS_JUDGE = True
 TIMEOUT = 900
@@ -592,13 +637,13 @@ def shrink(case):
 
 
 MANIFEST = {
-    "level_text": "Kernel-checked theorems over an executable byte-level model in which every Go slice expression and fixed-width read is a checked operation: (1) decode(encode) returns the same type name, payload bytes, header map and remaining-deadline field for ALL names/payloads/header maps within the wire limits, with and without metadata, at the server (handleConn's decode block: roundtrip_server) and at the client (unmarshalProtoResponse: roundtrip_client, any name length); a legacy frame is rejected by the metadata parser with ErrInvalidMessageLength for every registry (detect_legacy; exact guard: frame limit < 65*2^24, the regenerated defaultMaxFrameSize satisfies it: gen_facts); (2) concatenated frames are read back one by one in order by the reader, the server loop and the client batch loop (concat_read/_server/_client, induction over the stream), and the whole SendBatchProto pipeline against an echoing server returns every message in order at both ends (echo_pipeline); (3) every decoder is total on every byte string, its bounds checks never fire, the metadata decoder has a single error, the requested buffer is within [8, maxFrameSize] (decoders_total, alloc_limit); (4) frame-pool sizing (pool_sizing) and the deadline arithmetic incl. the 0 -> -1 rule (deadline_transfer; gen_remaining ties the rule to the regenerated source for all int64 inputs). The full statement holds (C23_holds); finding C23-F1 (client heuristic nameLen < 256) was repaired in /repo by fb98906 and is kept as a regression theorem (client_long_name_ok), a corpus case and a seeded reversal.",
+    "level_text": "Kernel-checked theorems over an executable byte-level model in which every Go slice expression and fixed-width read is a checked operation: (1) decode(encode) returns the same type name, payload bytes, header map and remaining-deadline field for ALL names/payloads/header maps within the wire limits, with and without metadata, at the server (handleConn's decode block: roundtrip_server) and at the client (unmarshalProtoResponse: roundtrip_client, any name length); a legacy frame is rejected by the metadata parser with ErrInvalidMessageLength for every registry (detect_legacy; exact guard: frame limit < 65*2^24, the regenerated defaultMaxFrameSize satisfies it: gen_facts); (2) concatenated frames are read back one by one in order by the reader, the server loop and the client batch loop (concat_read/_server/_client, induction over the stream), and the whole SendBatchProto pipeline against an echoing server returns every message in order at both ends (echo_pipeline); (3) every decoder is total on every byte string, its bounds checks never fire, the metadata decoder has a single error, the requested buffer is within [8, maxFrameSize] (decoders_total, alloc_limit); (4) every length/bound condition of UnmarshalBinary, UnmarshalBinaryWithMetadata, readProtoFrame, handleConn, unmarshalProtoResponse (detection condition) and Metadata.UnmarshalBinary is regenerated from the Go source on every run and proved equal to the condition the model branches on (19 theorems gen_*), so an edited bound breaks a proof obligation; (5) frame-pool sizing (pool_sizing) and the deadline arithmetic incl. the 0 -> -1 rule (deadline_transfer; gen_remaining ties the rule to the regenerated source for all int64 inputs). The full statement holds (C23_holds); finding C23-F1 (client heuristic nameLen < 256) was repaired in /repo by fb98906 and is kept as a regression theorem (client_long_name_ok), a corpus case and a seeded reversal.",
     "level_note": "protobuf (Marshal/Unmarshal) and the type registry are parameters of the model (a message = type name + payload bytes); the differential resolves them against the implementation's answer in the order registry -> metadata -> payload (proved: *_eq_finish). Clock readings are arguments of the model; on the implementation the remaining-deadline field is checked against the wall-clock window measured around the call. Map iteration order is an argument (judge checks 'exists an order'). A 64-bit `int` is assumed. Sockets, timeouts, sync.Pool reuse and the handler dispatch after decoding are outside the model. The decode of 65535-entry maps is checked on the implementation by the spec oracle only (the list-based model is quadratic there).",
     "technique": "Lean 4 proofs over an executable byte-level model with explicit Go bounds checks, tied to the code by a differential run of the real serializer, metadata codec, frame reader, client heuristic and server read loop; wire constants and the remaining-deadline computation regenerated from the source by go2lean",
 }
 TRUSTED = [
     "google.golang.org/protobuf: deterministic Marshal(Unmarshal(b)) = b for canonically encoded b, MessageName, the global registry (parameters `Codec.reg/pdec` of the model)",
-    "tools/go2lean translation of four constants and of Metadata.MarshalBinary restricted to the statements that compute `remaining` (five statements skipped by exact text)",
+    "tools/go2lean translation of four constants, of Metadata.MarshalBinary restricted to the statements that compute `remaining` (five statements skipped by exact text), and of 19 `if` conditions selected by a substring of their text; the two `pos+2 > len(data)` tests of Metadata.UnmarshalBinary (same text twice) and `err == ErrInvalidMessageLength` are tied by the differential only",
     "the python canonical proto3 encoder used to build payloads for 14 message types (checked on every run: the real code must accept and re-emit the same bytes)",
     "the wall clock does not step during a measured call (the harness retries when wall and monotonic time disagree)",
 ]
